@@ -302,7 +302,7 @@ func runC14(c *explore.Ctx) {
 	}
 	spaces := []sp{{"S2", "ROLL", "a", "e", "n", 3, 2}, {"S3", "ROLL", "a", "c", "n", 3, 2}, {"CH", "ROLL", "o0", "h0", "y", 2, 2}, {"S4", "ROLL", "e", "a", "n", 3, 0}, {"SP", "BIGC", "o0", "h0", "n1", 2, 1}}
 	if c.Thorough() {
-		spaces = []sp{{"S2", "ROLL", "a", "e", "n", 4, 3}, {"S3", "ROLL", "a", "c", "n", 4, 3}, {"CH", "ROLL", "o0", "h0", "y", 3, 3}, {"S4", "ROLL", "e", "a", "n", 4, 3}, {"SP", "BIGC", "o0", "h0", "n1", 3, 2}, {"S2", "ROLL1", "b", "a", "n", 4, 3}}
+		spaces = []sp{{"S2", "ROLL", "a", "e", "n", 5, 4}, {"S3", "ROLL", "a", "c", "n", 5, 3}, {"CH", "ROLL", "o0", "h0", "y", 4, 3}, {"S4", "ROLL", "e", "a", "n", 5, 3}, {"SP", "BIGC", "o0", "h0", "n1", 4, 3}, {"S2", "ROLL1", "b", "a", "n", 5, 4}}
 	}
 	n := 0
 	for _, s := range spaces {
